@@ -303,11 +303,18 @@ func (ii *invertedIndex) getSeriesIDs(key uint32) (*roaring.Bitmap, error) {
 }
 
 func (ii *invertedIndex) findSeriesIDsByKeys(keys *roaring.Bitmap) (*roaring.Bitmap, error) {
+	result := roaring.New()
+	// memory tables BEFORE taking the snapshot: flush() installs the new file and then clears the immutable
+	// table, so an entry is in the tables read here or in the snapshot taken below.
+	memIt := keys.Iterator()
+	for memIt.HasNext() {
+		ii.findSeriesIDsByKeyFromMem(memIt.Next(), result)
+	}
+
 	snapshot := ii.family.GetSnapshot()
 	verifhook.Yield("index.inverted.afterSnapshot")
 	defer snapshot.Close()
 
-	result := roaring.New()
 	seriesIDs := roaring.New()
 	it := keys.Iterator()
 	for it.HasNext() {
@@ -322,7 +329,6 @@ func (ii *invertedIndex) findSeriesIDsByKeys(keys *roaring.Bitmap) (*roaring.Bit
 		}); err != nil {
 			return nil, err
 		}
-		ii.findSeriesIDsByKeyFromMem(key, result)
 	}
 	return result, nil
 }
@@ -426,15 +432,15 @@ func (fi *forwardIndex) put(tagKeyID, tagValueID, seriesID uint32) {
 }
 
 func (fi *forwardIndex) findSeriesIDsForTag(tagKeyID tag.KeyID) (*roaring.Bitmap, error) {
-	snapshot := fi.family.GetSnapshot()
-	verifhook.Yield("index.forward.afterSnapshot")
-	defer snapshot.Close()
-
 	result := roaring.New()
-	// read data from mem
+	// read data from mem BEFORE taking the snapshot, see findSeriesIDsByKeys
 	fi.loadSeriesIDsInMem(tagKeyID, func(tagIndex *imap.IntMap[uint32]) {
 		result.Or(tagIndex.Keys())
 	})
+
+	snapshot := fi.family.GetSnapshot()
+	verifhook.Yield("index.forward.afterSnapshot")
+	defer snapshot.Close()
 
 	// read data from kv store
 	// try to get tag key id from kv store
